@@ -94,7 +94,8 @@ CLAIMED = {
                      "stop point a prefix) in every reachable state of the small tree models for all arguments, bound by TraceTree iscan-model. M (second sentence): the cursor at hook grain in YkConc4 (iscan_open, iscan_next with iscan_check_retry, neighbour move, retry_after_fb, "
                      "retry_from_root) over 2-3 borders vs split, interior insert, collapse / new root, insert, remove, unlink + re-insert: ScanOK, NvOK in all "
                      "interleavings of 5 programs, and step-level conformance of the real cursor to it; the cursor ACROSS a next-layer link (stack of two layers, retry_after_fb / retry_from_root per layer) "
-                     "in YkConc9, 6 programs, bound by TraceConc9. First sentence (sequential cursor): every real iscan_open/next sequence (both directions, all endpoint kinds, early stop) is judged by TLC "
+                     "in YkConc9, 6 programs, bound by TraceConc9; the PAUSED cursor with its re-validation / retry paths at call grain (YkIscanR) over every placement of 1-2 writes between its calls in "
+                     "every reachable small tree (MC_IscanW: monotone, current values, no untouched key skipped, early_abort warning; found F18 and F19), bound by TraceTree iscanmod-model. First sentence (sequential cursor): every real iscan_open/next sequence (both directions, all endpoint kinds, early stop) is judged by TLC "
                      "against the ordered abstract map incl. full_key and argument rejection. Second sentence: cursor steps of one thread interleaved with writers "
                      "of another under the deterministic scheduler (trees with next layers included): monotone in-interval keys, values placed in the per-key "
                      "linearization, stable keys not skipped, the callback's version set judged as in C06, faults reported; paused cursors (a write between two iscan_next calls, incl. "
